@@ -26,7 +26,7 @@ FAMILY = {"array_int": "array_new", "array_float": "array_new", "array_bool": "a
           "string_repeat": "string_repeat", "string_repeat_mb": "string_repeat", "pad_left": "string_pad", "pad_right": "string_pad",
           "pad_left_mb": "string_pad", "pad_right_mb": "string_pad", "concat_double": "string_concat",
           "replace_sq": "string_product", "join_sq": "string_product", "str_literal": "string_literal",
-          "vec_new_lit": "vec_literal", "closures": "closure"}
+          "vec_new_lit": "vec_literal", "closures": "closure", "churn": "closure_churn", "churn_mix": "object_churn", "churn_over": "closure_churn"}
 # bytes per unit of the size argument
 UNIT = {"array_int": 8, "array_float": 8, "array_obj": 8, "array_bool": 1, "vec_push": 8, "vec_push_float": 8, "vec_push_obj": 8,
         "vec_push_bool": 1, "vec_reserve": 8, "vec_reserve_float": 8, "vec_reserve_obj": 8, "vec_reserve_bool": 1, "manual_alloc": 8,
@@ -35,9 +35,10 @@ UNIT = {"array_int": 8, "array_float": 8, "array_obj": 8, "array_bool": 1, "vec_
         "pad_left_mb": 3, "pad_right_mb": 3}
 CAP_LO, CAP_HI = 1536 << 20, 3072 << 20
 LOOPS = ("vec_push", "vec_push_float", "vec_push_bool", "vec_push_obj", "vec_fill", "vec_fill_float", "vec_fill_bool", "vec_fill_obj",
-         "concat_double", "vec_new_lit", "closures", "manual_reuse", "replace_sq", "join_sq", "str_literal")   # a refusal in the middle leaves the earlier charges
+         "concat_double", "vec_new_lit", "closures", "manual_reuse", "replace_sq", "join_sq", "str_literal", "churn", "churn_mix", "churn_over")   # a refusal in the middle leaves the earlier charges
 GUARDED_LOOPS = ("vec_new_lit", "closures")      # modelled as OLoop with the per-iteration requests read from the check log
-MODELLED = set(UNIT) | {"concat_double", "replace_sq", "join_sq", "str_literal"} | set(GUARDED_LOOPS)
+CHURN = ("churn", "churn_mix", "churn_over")                  # objects created and dropped across many collections, then two arrays of 45 % of the limit
+MODELLED = set(UNIT) | {"concat_double", "replace_sq", "join_sq", "str_literal", "churn", "churn_over"} | set(GUARDED_LOOPS)
 HOST_T = 65536
 # operations that make ONE request: when they are refused the host must not have been asked for anything
 SINGLE = {"array_int", "array_float", "array_bool", "array_obj", "vec_reserve", "vec_reserve_float", "vec_reserve_bool", "vec_reserve_obj",
@@ -52,12 +53,13 @@ def parse(out):
             continue
         o = f[6].split()
         detail = f[7] if len(f) > 7 else ""
-        ev = {"nhost": 0, "maxhost": 0, "uncovered": 0, "first_uncovered": 0, "nchecks": 0, "nrefused": 0, "events": 0, "ck": None}
-        m = re.match(r"EV:(\d+):(\d+):(\d+):(\d+):(\d+):(\d+):(\d+):(\d+):CK=(\S*)", detail)
+        ev = {"nhost": 0, "maxhost": 0, "uncovered": 0, "first_uncovered": 0, "nchecks": 0, "nrefused": 0, "events": 0, "ck": None, "acc": None}
+        m = re.match(r"EV:(\d+):(\d+):(\d+):(\d+):(\d+):(\d+):(\d+):(\d+):CK=([^:\s]*)(?::ACC=(\d+)/(\d+)/(\d+)/(\d+))?", detail)
         if m:
             g = m.groups()
             ev = {"nhost": int(g[0]), "maxhost": int(g[1]), "uncovered": int(g[2]), "first_uncovered": int(g[3]), "nchecks": int(g[4]),
-                  "nrefused": int(g[5]), "events": int(g[7]), "ck": [x for x in g[8].split(",") if x] if int(g[7]) <= 96 else None}
+                  "nrefused": int(g[5]), "events": int(g[7]), "ck": [x for x in g[8].split(",") if x] if int(g[7]) <= 96 else None,
+                  "acc": [int(x) for x in g[9:13]] if g[9] is not None else None}
         rows.append({"id": int(f[0]), "op": f[1], "size": int(f[2]), "limit": int(f[3]), "opt": int(f[4]), "coq_op": f[5],
                      "kind": int(o[0]), "delta": int(o[1]), "dpeak_kib": int(o[2]), "a0": int(o[3]), "detail": detail, "ev": ev})
     return rows
@@ -103,13 +105,15 @@ def calibrate(rows):
         if key in c:
             continue
         # operations without a failing case: the smallest size of the grid (no iteration / nothing reserved)
-        if r["kind"] == 0 and r["size"] <= 0 and r["op"] in LOOPS:
+        if r["size"] <= 0 and r["op"] in LOOPS and (r["kind"] == 0 or r["kind"] == 1 and r["op"] == "churn_over"):
             d = r["delta"]
             if r["op"] in ("replace_sq", "join_sq"):
                 d -= 24       # the empty string, allocated once
             if r["op"].startswith("vec_fill"):
                 # the reservation itself is part of the modelled operation: rsv elements of growth from capacity 1
                 d -= int(r["coq_op"].split()[-1]) * UNIT[r["op"]]
+            if r["op"] in CHURN:
+                d -= 2 * (24 + 8 * int(r["coq_op"].split()[-1]))      # the two arrays that follow the loop
             base.setdefault(key, set()).add(d)
     return c, base
 
@@ -174,6 +178,25 @@ def oracle(ctx, r, const, stats):
     # guarded loops (vec literals, closures): Ok or OutOfMemory, and OutOfMemory only near the limit
     if r["op"] in ("vec_new_lit", "closures") and kind == 1 and r["a0"] + r["delta"] + 4096 < r["limit"]:
         ctx.violation(f"refused-under-limit:{fam}", f"OutOfMemory with only {r['a0'] + r['delta']} of {r['limit']} bytes in use", rep)
+    # the counter the limit is checked against is the sum of the estimates of the objects that are on the heap -- after
+    # the operation and again after a forced collection (recomputed from the heap itself: Heap::estimate_object_size over
+    # every occupied slot).  sweep subtracts the estimate an object has when it dies: an estimate that changed since the
+    # allocation without going through account_growth shows up here
+    acc = ev.get("acc")
+    if acc and acc[0] > r["limit"]:
+        ctx.violation(f"held-over-limit:{fam}", f"after {r['op']}({r['size']}) the objects on the managed heap are estimated at {acc[0]} bytes under a limit of {r['limit']} "
+                      f"(bytes_allocated says {acc[1]})", dict(rep, sum_of_estimates=acc[0], bytes_allocated=acc[1]))
+    if r["op"] == "churn_over" and kind == 0:
+        ctx.violation(f"granted-over-limit:{fam}", f"three arrays of {8 * int(r['coq_op'].split()[-1]) + 24} bytes each granted under a limit of {r['limit']}", rep)
+    if acc:
+        if acc[0] != acc[1]:
+            ctx.violation(f"accounting-drift:{fam}", f"after {r['op']}({r['size']}) heap.bytes_allocated() = {acc[1]} but the objects on the heap are estimated at {acc[0]} bytes "
+                          f"(limit {r['limit']})", dict(rep, sum_of_estimates=acc[0], bytes_allocated=acc[1], when="after the operation"))
+        elif acc[2] != acc[3]:
+            ctx.violation(f"accounting-drift:{fam}", f"after {r['op']}({r['size']}) and a collection heap.bytes_allocated() = {acc[3]} but the surviving objects are estimated at "
+                          f"{acc[2]} bytes (limit {r['limit']})", dict(rep, sum_of_estimates=acc[2], bytes_allocated=acc[3], when="after a collection"))
+    if r["op"] in CHURN and kind == 1 and r["a0"] + r["delta"] + 8 * int(r["coq_op"].split()[-1]) + 24 <= r["limit"]:
+        ctx.violation(f"refused-under-limit:{fam}", f"OutOfMemory with {r['a0'] + r['delta']} of {r['limit']} bytes in use and an array of {8 * int(r['coq_op'].split()[-1]) + 24} bytes requested", rep)
     stats[KIND.get(kind, kind)] = stats.get(KIND.get(kind, kind), 0) + 1
 
 
@@ -182,12 +205,21 @@ def correspond(ctx, rows, const, tag):
     # per-iteration requests of the guarded loops: the limit checks that one more iteration adds (size 2 against size 1;
     # the growth of the keep vec from capacity 1 to 4 happens in iteration 1)
     allocs = {}
-    cks = {(r["op"], r["opt"], r["size"]): r["ev"]["ck"] for r in rows if r["op"] in GUARDED_LOOPS and r["size"] in (1, 2) and r["ev"]["ck"]}
-    deltas = {(r["op"], r["opt"], r["size"]): r["delta"] for r in rows if r["op"] in GUARDED_LOOPS and r["size"] in (1, 2)}
+    tied_loops = GUARDED_LOOPS + ("churn", "churn_over")
+    cks = {(r["op"], r["opt"], r["size"]): r["ev"]["ck"] for r in rows if r["op"] in tied_loops and r["size"] in (1, 2) and r["ev"]["ck"]}
+    deltas = {(r["op"], r["opt"], r["size"]): r["delta"] for r in rows if r["op"] in tied_loops and r["size"] in (1, 2)}
     for (op, opt, size), ck2 in cks.items():
         ck1 = cks.get((op, opt, 1))
-        if size == 2 and ck1 and ck2[:len(ck1)] == ck1 and all(not x.endswith("!") for x in ck2):
-            al = [int(x) for x in ck2[len(ck1):]]
+        if size != 2 or not ck1 or len(ck2) <= len(ck1) or any(x.endswith("!") for x in ck2) and op != "churn_over":
+            continue
+        # the requests one more iteration inserts: after the common prefix (for churn the two arrays follow the loop)
+        d, p = len(ck2) - len(ck1), 0
+        while p < len(ck1) and ck1[p] == ck2[p]:
+            p += 1
+        while p > 0 and ck2[:p] + ck2[p + d:] != ck1:
+            p -= 1
+        if ck2[:p] + ck2[p + d:] == ck1 and not any(x.endswith("!") for x in ck2[p:p + d]):
+            al = [int(x) for x in ck2[p:p + d]]
             # alloc_vec / alloc_array consult the limit twice for one charge: an adjacent equal pair is charged once when
             # that is what the accounting of one more iteration says
             per = deltas.get((op, opt, 2), 0) - deltas.get((op, opt, 1), 0)
@@ -199,8 +231,8 @@ def correspond(ctx, rows, const, tag):
             if sum(a for a, f in zip(al, flags) if f) == per:
                 allocs[(op, opt)] = list(zip(al, flags))
     ctx.cov.setdefault("loop_requests", {}).update({f"{k[0]}@O{k[1]}": [[a, f] for a, f in v] for k, v in allocs.items()})
-    for op in GUARDED_LOOPS:
-        if any(r["op"] == op for r in rows) and not any(k[0] == op for k in allocs):
+    for op in tied_loops:
+        if any(r["op"] == op and r["size"] in (1, 2) for r in rows) and not any(k[0] == op for k in allocs):
             ctx.broken.append(f"correspondence C10: the per-iteration requests of {op} could not be read from the check log")
     # the function object of the string-literal input: the second limit check of the n = 0 case (the first is merge_heap)
     lit_fn = {}
@@ -232,6 +264,11 @@ def correspond(ctx, rows, const, tag):
             if al is None:
                 continue
             cop = "OLoop [" + "; ".join("(%d%%N, %s)" % (a, "true" if f else "false") for a, f in al) + "]"
+        if r["op"] in ("churn", "churn_over"):
+            al = allocs.get((r["op"], r["opt"]))
+            if al is None:
+                continue
+            cop = r["coq_op"].split()[0] + " [" + "; ".join("(%d%%N, %s)" % (a, "true" if f else "false") for a, f in al) + "] (%s)%%Z" % r["coq_op"].split()[-1]
         q = f"QOp ({cop}) ({n})%Z {r['limit']} {CAP_LO} {CAP_HI} {a0 + c}"
         charge = r["delta"] - c if (r["kind"] == 0 or r["op"] in LOOPS) else 0
         o = f"([{r['kind']}; ({charge}); {1 if r['ev']['nhost'] > 0 else 0}]%Z, @nil Z)"
@@ -267,7 +304,7 @@ def run(ctx):
     ctx.cov["trusted_base"] = TRUSTED
     ctx.assumptions = ["the transition model is the code: checked by the child-process tie below",
                        "what the host allocator does with a request is outside the model (level: partial)"]
-    proved = ctx.prove("C10", extracted=["HeapConsts", "HeapSites"])
+    proved = ctx.prove("C10", extracted=["HeapConsts", "HeapSites", "HeapEstimator"])
     if ctx.tier == "thorough" and proved:
         ctx.coqchk("C10")
     ok, out = vlib.coq_make(["Base/CaseCheck.vo", "Model/HeapLimitObs.vo"])
@@ -328,6 +365,23 @@ def run(ctx):
             oracle(ctx, r, const, stats)
             if r["kind"] != 0 or r["delta"] - const.get((r["op"], r["opt"]), 0) > 0:
                 distinct.add((r["op"], r["size"], r["limit"], r["opt"]))
+        # after a collection nothing of the churned objects is left: what the counter says then does not depend on how many
+        # iterations there were
+        residue = {}
+        for r in rows:
+            if r["op"] in CHURN and r["ev"].get("acc") and r["kind"] in (0, 1) and r["size"] >= 0:
+                arr = 24 + 8 * int(r["coq_op"].split()[-1])          # the arrays are globals: up to three of them survive
+                rem = (r["ev"]["acc"][3] - r["a0"]) % arr
+                residue.setdefault((r["op"], r["opt"]), {}).setdefault(rem, r)
+        for key, vals in residue.items():
+            if len(vals) > 1:
+                lo, hi = min(vals), max(vals)
+                r = vals[lo] if vals[lo]["size"] > vals[hi]["size"] else vals[hi]
+                ctx.violation(f"collection-residue-varies:{FAMILY[key[0]]}", f"{key[0]} at -O{key[1]}: after the operation and a collection bytes_allocated, less what "
+                              f"was there before and the surviving arrays, is {lo} for {vals[lo]['size']} iterations (limit {vals[lo]['limit']}) and {hi} for "
+                              f"{vals[hi]['size']} (limit {vals[hi]['limit']})",
+                              {"op": r["op"], "size": r["size"], "limit": r["limit"], "opt": r["opt"], "residues": sorted(vals),
+                               "replay_cmd": f"hx_heaplimit --cases {r['op']}:{r['size']}:{r['limit']}:{r['opt']},{r['op']}:0:{r['limit']}:{r['opt']}"})
         tied += correspond(ctx, rows, const, "c10" + prof)
         ctx.add_samples([{"op": r["op"], "size": r["size"], "limit": r["limit"], "opt": r["opt"], "kind": KIND.get(r["kind"]), "accounting_delta": r["delta"]}
                          for r in rows[:2] + rows[len(rows) // 2: len(rows) // 2 + 2]])
@@ -337,6 +391,7 @@ def run(ctx):
                               "by_size_class": by_class, "by_limit": by_limit, "by_opt": by_opt}
     need = {op: {"ok", "OutOfMemory"} for op in MODELLED if op != "bytes_alloc"}
     need["bytes_alloc"] = {"ok", "TypeError"}
+    need["churn_over"] = {"OutOfMemory"}      # 108 % of the limit: the third array is always refused
     if ctx.tier == "quick":
         need["vec_push_bool"] = {"ok"}      # the plain Vec<Bool> loop reaches the limit only with --deep (thorough); vec_fill_bool covers the region
     for op in ("array_int", "array_float", "array_bool", "array_obj", "manual_alloc", "manual_reuse", "vec_reserve", "vec_reserve_float",
